@@ -64,6 +64,8 @@ type CallRecord struct {
 	ExpectErrClass  string `json:"expect_err_class,omitempty"`
 	MayRefuse       bool   `json:"may_refuse,omitempty"` // a value contains its style's delimiter: an error is as good as exact delivery
 	ReqCT           string `json:"req_ct,omitempty"`     // Content-Type of the request as the client sent it
+	ReqMethod       string `json:"req_method,omitempty"` // method and escaped path as they went on the wire (after an intermediary rewrote them)
+	ReqPath         string `json:"req_path,omitempty"`
 }
 
 func (r *CallRecord) fire() { r.fired.Store(true) }
